@@ -546,6 +546,17 @@ func CookieSet(w http.ResponseWriter, name string) (value string, maxAge int, ok
 	return "", 0, false
 }
 
+func Fingerprint(x any) string {
+	v := reflect.ValueOf(x)
+	for v.Kind() == reflect.Ptr || v.Kind() == reflect.Interface {
+		if v.IsNil() {
+			return "<nil>"
+		}
+		v = v.Elem()
+	}
+	return fmt.Sprintf("%+v", v)
+}
+
 func Debugf(format string, args ...any) { res.Notes = append(res.Notes, fmt.Sprintf(format, args...)) }
 
 // ---- scripted HTTP transport (plain Go in both variants: executed symbolically and natively) ----
